@@ -358,6 +358,15 @@ class Generator:
         if not in_trait_impl:
             edits += self.vis_edit(it, j0)
         edits += self.common_edits(j0, bo - 1)
+        if mode == "verify":
+            # E9: a `const fn` whose body calls a byte-order shim (E4) loses `const` (trait shims are not const)
+            uses_shim = any(toks[k].kind == "id" and toks[k].text in SHIM_METHODS for k in range(bo, bc))
+            if uses_shim:
+                for k in range(j0, bo):
+                    if toks[k].kind == "id" and toks[k].text == "fn":
+                        break
+                    if toks[k].kind == "id" and toks[k].text == "const":
+                        edits.append(Edit(toks[k].start, toks[k].end, "")); self.count("E9-const")
         # return value naming
         rname = fs.returns if fs and fs.returns else None
         if rname:
@@ -397,9 +406,20 @@ class Generator:
         toks = self.toks
         # find '->' at depth 0 after the parameter list
         k = j0
-        while toks[k].text != "(" or toks[k].kind != "punct":
-            # skip generics <...> which may contain parens rarely; fine
+        while not (toks[k].kind == "id" and toks[k].text == "fn"):
             k += 1
+        k += 2  # fn name
+        if toks[k].text == "<":
+            d = 0
+            while True:
+                if toks[k].text == "<": d += 1
+                elif toks[k].text == ">": d -= 1
+                elif toks[k].text == ">>": d -= 2
+                k += 1
+                if d <= 0:
+                    break
+        if toks[k].text != "(":
+            raise GenError("%s: cannot find parameter list" % it.path)
         k = rlex.match_close(toks, k) + 1
         if toks[k].text != "->":
             raise GenError("%s: @returns given but function has no return type" % it.path)
